@@ -422,7 +422,12 @@ impl<Octets: AsRef<[u8]>> fmt::Display for UncertainName<Octets> {
     fn fmt(&self, f: &mut fmt::Formatter<'_>) -> fmt::Result {
         match *self {
             UncertainName::Absolute(ref name) => {
-                write!(f, "{}.", name)
+                // The root name is already displayed as a single dot.
+                if name.is_root() {
+                    name.fmt(f)
+                } else {
+                    write!(f, "{}.", name)
+                }
             }
             UncertainName::Relative(ref name) => name.fmt(f),
         }
